@@ -32,19 +32,31 @@ def map_machine(mc, shape):
     elif shape == "wait_task":
         it_states = {"W": {"Type": "Wait", "Seconds": 1, "Next": "T"}, "T": {"Type": "Task", "Resource": FN + "f", "End": True}}
         start = "W"
+    elif shape == "caught":
+        # the Task of the items marked bad fails, its own Catch carries the iteration on to a second Task
+        it_states = {"T": {"Type": "Task", "Resource": FN + "f", "Catch": [{"ErrorEquals": ["States.ALL"], "ResultPath": None, "Next": "R"}], "End": True},
+                     "R": {"Type": "Task", "Resource": FN + "f", "Parameters": {"i.$": "$.i"}, "End": True}}
     m = {"Type": "Map", "ItemsPath": "$.items", "Iterator": {"StartAt": start, "States": it_states}, "Next": "Done"}
+    if shape == "inputpath":
+        m["InputPath"] = "$.w"          # ItemsPath applies to the effective input; re-entering for the next block must not apply InputPath twice
     if mc is not None:
         m["MaxConcurrency"] = mc
     return {"StartAt": "M", "States": {"M": m, "Done": {"Type": "Pass", "End": True}}}
 
 
-def parallel_machine(k):
+def parallel_machine(k, shape="task", bad=()):
     branches = [{"StartAt": "T%d" % j, "States": {"T%d" % j: {"Type": "Task", "Resource": FN + "f", "Parameters": {"i": j}, "End": True}}} for j in range(k)]
+    if shape == "caught":
+        for j in bad:
+            branches[j]["States"]["T%d" % j].update(Parameters={"i": j, "bad": True}, Catch=[{"ErrorEquals": ["States.ALL"], "ResultPath": None, "Next": "R%d" % j}])
+            branches[j]["States"]["R%d" % j] = {"Type": "Task", "Resource": FN + "f", "Parameters": {"i": j}, "End": True}
     return {"StartAt": "M", "States": {"M": {"Type": "Parallel", "Branches": branches, "Next": "Done"}, "Done": {"Type": "Pass", "End": True}}}
 
 
 def worker(req):
     b = req["body"]
+    if isinstance(b, dict) and b.get("bad"):
+        return {"errorType": "A", "errorMessage": "this item is bad"}
     return ({"o": b.get("i")},) if isinstance(b, dict) else ({"o": None},)
 
 
@@ -56,14 +68,16 @@ def perm_chooser(perm):
         others = [i for i, o in enumerate(opts) if o[1] != "reply"]
         if others:
             return others[0]
-        best = min(range(len(opts)), key=lambda i: rank.get((opts[i][2][0]["body"] or {}).get("i"), 10 ** 6))
+        # (the failing reply of a bad item goes first: its iteration is then in its Catch path while the siblings finish in the order of perm)
+        best = min(range(len(opts)), key=lambda i: -1 if (opts[i][2][0]["body"] or {}).get("bad") else rank.get((opts[i][2][0]["body"] or {}).get("i"), 10 ** 6))
         return best
     return ch
 
 
 def observe(info, n, kind):
     """-> finishes, launches, final, max_inflight"""
-    corr_item = {mid(r["correlation_id"]): (r["body"] or {}).get("i") for r in info.world.requests}
+    # an iteration finishes with the reply of its last Task: the failing reply of a bad item (caught inside the iteration) is not a finish
+    corr_item = {mid(r["correlation_id"]): (r["body"] or {}).get("i") for r in info.world.requests if not (r["body"] or {}).get("bad")}
     finishes, launches, cur = [], [], []
     inflight, mx = 0, 0
     for st in info.steps:
@@ -115,8 +129,11 @@ def main():
     not_ended = []
 
     def run_one(kind, n, mc, perm, shape="task", sched="perm"):
-        definition = map_machine(mc, shape) if kind == "map" else parallel_machine(n)
-        data = {"items": [{"i": j} for j in range(n)]}
+        bad = [j for j in range(n) if (j * 7 + n + (mc or 0)) % 3 == 0] if shape == "caught" else []
+        definition = map_machine(mc, shape) if kind == "map" else parallel_machine(n, shape, bad)
+        data = {"items": [dict({"i": j}, **({"bad": True} if j in bad else {})) for j in range(n)]}
+        if shape == "inputpath":
+            data = {"w": data}
         chooser = perm_chooser(perm) if sched == "perm" else eg.random_chooser(random.Random(perm))
         info = eg.convert(eg.run_many(definition, [data], worker, tmpd, chooser=chooser))
         d = {"kind": kind, "n": n, "MaxConcurrency": mc, "finish_priority": perm, "shape": shape, "definition": definition, "input": data}
@@ -139,6 +156,15 @@ def main():
     for n in range(1, max_exh + 1):
         for perm in itertools.permutations(range(n)):
             run_one("parallel", n, None, list(perm))
+    # a failure caught inside an iteration / branch, and a Map with InputPath: every completion order x every MaxConcurrency of fan-outs of 3
+    for n in ([2, 3, 4] if thorough else [3]):
+        for perm in itertools.permutations(range(n)):
+            for mc in [None] + list(range(1, n + 1)):
+                run_one("map", n, mc, list(perm), shape="caught")
+            run_one("parallel", n, None, list(perm), shape="caught")
+        for mc in [None] + list(range(0, n + 2)):
+            run_one("map", n, mc, list(range(n)), shape="inputpath")
+            run_one("map", n, mc, list(reversed(range(n))), shape="inputpath")
     # sampled: larger fan-outs, other iterator shapes, random schedules of everything
     for _ in range(400 if thorough else 60):
         n = rng.randrange(0, 9 if thorough else 7)
@@ -148,9 +174,9 @@ def main():
         if kind == "parallel":
             mc = None
         if rng.random() < 0.4:
-            run_one(kind, n, mc, rng.randrange(10 ** 9), shape=rng.choice(["task", "pass_task", "wait_task"]), sched="random")
+            run_one(kind, n, mc, rng.randrange(10 ** 9), shape=rng.choice(["task", "pass_task", "wait_task", "caught", "inputpath"]), sched="random")
         else:
-            run_one(kind, n, mc, perm, shape=rng.choice(["task", "pass_task", "wait_task"]))
+            run_one(kind, n, mc, perm, shape=rng.choice(["task", "pass_task", "wait_task", "caught", "inputpath"]))
     shutil.rmtree(tmpd, ignore_errors=True)
 
     for d in not_ended[:3]:
@@ -178,7 +204,7 @@ def main():
                  with_max_concurrency=sum(1 for d in descs if d["MaxConcurrency"]), exhaustive_up_to=max_exh,
                  largest=max([d["n"] for d in descs] or [0]))
     ck.cov["rule"] = ("Map states over n items x MaxConcurrency absent/0..n+1 x every completion order of the n task replies (exhaustive for n <= %d), Parallel states with n branches x "
-                      "every completion order; sampled: n up to %d, iterators Task / Pass-Task / Wait-Task, random schedules of all deliveries, timers and replies; "
+                      "every completion order; fan-outs of 3 with a failure caught inside an iteration / branch (every order x every MaxConcurrency) and Maps with an InputPath; sampled: n up to %d, iterators Task / Pass-Task / Wait-Task / caught failure / InputPath, random schedules of all deliveries, timers and replies; "
                       "non-trivial = fan-outs with at least 2 branches" % (max_exh, 8 if thorough else 6))
     ck.assumptions = ["each iteration ends with one Task, so an iteration finishes when its reply is delivered", "nested fan-out positions are exercised by C01's campaign against the semantics"]
     ck.finish(BASE_TRUST + JOIN_TRUST)
